@@ -12,15 +12,18 @@
 package main
 
 import (
+	"crypto/sha256"
 	"bytes"
 	"encoding/json"
 	"fmt"
 	"io/ioutil"
 	"math/rand"
 	"os"
+	"path/filepath"
 	"runtime/debug"
 	"sort"
 	"sync"
+	"sync/atomic"
 
 	"go.dedis.ch/kyber/v3/suites"
 	"go.dedis.ch/kyber/v3/util/key"
@@ -179,6 +182,28 @@ func newWorld() (*world, error) {
 	w := &world{dir: dir, si: si}
 	w.srv = onet.NewServerTCP(w.si, suite)
 	return w, nil
+}
+
+// oldDbName: the file name older onet versions used (hex of the public key); the current
+// name is hex(sha256(public key)) -- see serviceManager.updateDbFileName in service.go.
+func (w *world) dbNames() (oldName, newName string) {
+	pub, _ := w.si.Public.MarshalBinary()
+	h := sha256.Sum256(pub)
+	return filepath.Join(w.dir, fmt.Sprintf("%x.db", pub)), filepath.Join(w.dir, fmt.Sprintf("%x.db", h[:]))
+}
+
+// restartOld: like restart, but while the server is down the database file is given the
+// name an older server version would have left it under; start-up must migrate it.
+func (w *world) restartOld() {
+	w.srv.Close()
+	oldName, newName := w.dbNames()
+	if err := os.Rename(newName, oldName); err != nil {
+		panic("c16 harness: database file not where service.go says: " + err.Error())
+	}
+	si := network.NewServerIdentity(w.si.Public, network.NewTCPAddress("127.0.0.1:0"))
+	si.SetPrivate(w.si.GetPrivate())
+	w.si = si
+	w.srv = onet.NewServerTCP(w.si, suite)
 }
 
 func (w *world) restart() {
@@ -465,7 +490,7 @@ func run(raw json.RawMessage) lib.Case {
 		if broken {
 			break
 		}
-		if op.Kind == "restart" {
+		if op.Kind == "restart" || op.Kind == "oldrestart" {
 			slots = map[[2]int]*slot{} // the database handle of the old server is closed
 			ro := outc{K: "ok"}
 			func() {
@@ -474,7 +499,11 @@ func run(raw json.RawMessage) lib.Case {
 						ro = outc{K: "crash", Msg: fmt.Sprint(r)}
 					}
 				}()
-				w.restart()
+				if op.Kind == "oldrestart" {
+					w.restartOld()
+				} else {
+					w.restart()
+				}
 			}()
 			emit("HRestart", ro)
 			verify()
@@ -524,6 +553,47 @@ func run(raw json.RawMessage) lib.Case {
 			} else {
 				emit(fmt.Sprintf("HOp %d (OAddGet %s %s)", op.Svc, bytesLit(sl.bkt), keyLit(op)),
 					rawGet(sl.db, sl.name, keyBytes(op)))
+			}
+		case "cver":
+			// every service of the history saves ITS OWN constant version (Ver + index) from
+			// Slot goroutines at once, several times each; saves of one service are
+			// idempotent and different services commute: one OSaveVer per service in the model
+			nsvc := len(in.Names)
+			g := op.Slot
+			if g < 1 {
+				g = 2
+			}
+			res := make([]outc, nsvc)
+			for i := range res {
+				res[i] = outc{K: "ok"}
+			}
+			var rmu sync.Mutex
+			var wg sync.WaitGroup
+			var flag int32
+			for sv := 0; sv < nsvc; sv++ {
+				cs := ctx(in.Names[sv])
+				for j := 0; j < g; j++ {
+					sv := sv
+					wg.Add(1)
+					go func() {
+						defer wg.Done()
+						for atomic.LoadInt32(&flag) == 0 {
+						}
+						for r := 0; r < 25; r++ {
+							o := doOp(cs, opIn{Kind: "savever", Svc: sv, Ver: op.Ver + int64(sv)})
+							if o.K != "ok" {
+								rmu.Lock()
+								res[sv] = o
+								rmu.Unlock()
+							}
+						}
+					}()
+				}
+			}
+			atomic.StoreInt32(&flag, 1)
+			wg.Wait()
+			for sv := 0; sv < nsvc; sv++ {
+				emit(fmt.Sprintf("HOp %d (OSaveVer (%d)%%Z)", sv, op.Ver+int64(sv)), res[sv])
 			}
 		case "cadd":
 			res := make([]outc, len(op.Multi))
@@ -889,7 +959,12 @@ func genHist(rng *rand.Rand, class string, nops int) input {
 		case r < 90:
 			in.Ops = append(in.Ops, opIn{Kind: "addget", Svc: s, Bkt: bktPool[rng.Intn(len(bktPool))], Key: key()})
 		default:
-			in.Ops = append(in.Ops, opIn{Kind: "restart"})
+			if rng.Intn(3) == 0 {
+				// the data directory as an older server version left it: db under the old file name
+				in.Ops = append(in.Ops, opIn{Kind: "oldrestart"})
+			} else {
+				in.Ops = append(in.Ops, opIn{Kind: "restart"})
+			}
 			held = map[int][]int{}
 		}
 	}
@@ -979,7 +1054,15 @@ func genVersions(rng *rand.Rand) input {
 		case r < 7:
 			in.Ops = append(in.Ops, opIn{Kind: "savever", Svc: s, Ver: 0})
 		case r < 8:
-			in.Ops = append(in.Ops, opIn{Kind: "restart"})
+			if rng.Intn(2) == 0 {
+				in.Ops = append(in.Ops, opIn{Kind: "oldrestart"})
+			} else {
+				in.Ops = append(in.Ops, opIn{Kind: "restart"})
+			}
+			all()
+		case r < 9:
+			// all services save their own constant version concurrently
+			in.Ops = append(in.Ops, opIn{Kind: "cver", Ver: int64(1 + rng.Intn(1000)), Slot: 2 + rng.Intn(3)})
 			all()
 		default:
 			in.Ops = append(in.Ops, opIn{Kind: "loadver", Svc: rng.Intn(k)})
@@ -1086,6 +1169,32 @@ func corpus() []interface{} {
 		}},
 		// values loaded from a large bucket stay what they were, across later writes and a restart
 		bigCorpus(),
+		// concurrent SaveVersion of four services, each its own constant
+		input{Kind: "hist", Class: "versions", Names: []string{"Alpha", "Beta", "ElevenBytes", "AlphaBeta"}, Ops: []opIn{
+			{Kind: "cver", Ver: 11, Slot: 4},
+			{Kind: "loadver", Svc: 0}, {Kind: "loadver", Svc: 1}, {Kind: "loadver", Svc: 2}, {Kind: "loadver", Svc: 3},
+			{Kind: "cver", Ver: 500, Slot: 4},
+			{Kind: "loadver", Svc: 0}, {Kind: "loadver", Svc: 1}, {Kind: "loadver", Svc: 2}, {Kind: "loadver", Svc: 3},
+			{Kind: "restart"},
+			{Kind: "loadver", Svc: 0}, {Kind: "loadver", Svc: 3},
+		}},
+		// a data directory left by an older server (db under the old file name): the migration is transparent
+		input{Kind: "hist", Class: "isolated", Names: []string{"Alpha", "Beta"}, Ops: []opIn{
+			{Kind: "save", Svc: 0, Key: k, Val: 1},
+			{Kind: "savever", Svc: 1, Ver: 5},
+			{Kind: "oldrestart"},
+			{Kind: "load", Svc: 0, Key: k},
+			{Kind: "loadver", Svc: 1},
+			{Kind: "save", Svc: 0, Key: []int{107, 49}, Val: 2},
+			{Kind: "save", Svc: 1, Key: k, Val: 3},
+			{Kind: "restart"},
+			{Kind: "load", Svc: 0, Key: k},
+			{Kind: "load", Svc: 0, Key: []int{107, 49}},
+			{Kind: "load", Svc: 1, Key: k},
+			{Kind: "oldrestart"},
+			{Kind: "load", Svc: 0, Key: []int{107, 49}},
+			{Kind: "loadver", Svc: 1},
+		}},
 		// the last saved version wins, 0 included, also across a restart
 		input{Kind: "hist", Class: "versions", Names: []string{"Alpha", "Beta"}, Ops: []opIn{
 			{Kind: "loadver", Svc: 0},
@@ -1148,7 +1257,7 @@ func main() {
 		Import: "Onet.Corr.C16",
 		Rule: "seeded histories of 8-40 (thorough: 8-80) storage operations by 2-4 services with prefix-sharing names on one real server, " +
 			"few shared keys and bucket names, restarts on the same data directory; 'clash' histories use names violating the side condition " +
-			"(model comparison only); 'concurrent' cases run 2-4 savers per key and service with concurrent loaders; 'versions' histories save the database version repeatedly (0 after a non-zero one, values wrapping to 0) with reads and restarts; 'keys' histories save and load under the keys bbolt refuses (empty, nil, 32769 and more bytes) and the longest accepted key (32768) with valid neighbours; 'big' histories fill buckets " +
+			"(model comparison only); 'concurrent' cases run 2-4 savers per key and service with concurrent loaders; 'oldrestart' = restart after the database file was given the name older server versions used (start-up must migrate it); 'cver' = all services save their own constant version from 2-4 goroutines each at once; 'versions' histories save the database version repeatedly (0 after a non-zero one, values wrapping to 0) with reads and restarts; 'keys' histories save and load under the keys bbolt refuses (empty, nil, 32769 and more bytes) and the longest accepted key (32768) with valid neighbours; 'big' histories fill buckets " +
 			"beyond bbolt's inline size with 150-330 byte values over many keys; service names of 4-19 bytes (incl. 11, 13, 19); services hold several " +
 			"additional-bucket names at once and request several concurrently; every value / bucket name handed out is re-compared after every later operation and restart; " +
 			"non-trivial = some load returned data; distinct = distinct Coq case term",
